@@ -452,7 +452,6 @@ func main() {
 			if rule.MemGB != 0 {
 				c["__mem_gb"] = rule.MemGB
 			}
-			c["__chunk_id"] = fmt.Sprintf("%s#%d", rng.Hex(6), i)
 			chunks = append(chunks, c)
 		}
 		sd := map[string]interface{}{"chunks": chunks, "join": map[string]interface{}{}}
